@@ -261,7 +261,7 @@ var hlslBackend = textBackend{
 var mslBackend = textBackend{
 	name: "msl",
 	cfg: func() wgen.Config {
-		return wgen.Config{Off: wgen.SafeOff("inline-const-precedence", "fn.dot.int", "fn.select", "postfix-on-compound", "fn.round", "fn.sign", "fn.firstLeadingBit", "fn.firstTrailingBit", "swizzle.on-constructor", "ptr.struct-vec3-member")}
+		return wgen.Config{Off: wgen.SafeOff("inline-const-precedence", "fn.dot.int", "fn.select", "postfix-on-compound", "fn.round", "fn.sign", "fn.firstLeadingBit", "fn.firstTrailingBit", "swizzle.on-constructor", "ptr.dynamic-element", "ptr.struct-vec3-member")}
 	},
 	nopt:    func(th bool) int { return len(mslOptionSets(th)) },
 	optName: func(th bool, i int) string { return mslOptionSets(th)[i].name },
